@@ -466,6 +466,8 @@ class Runner:
                 if want_store:
                     self.dumps.append(dump_store(srv.folder, self.etags))
             self.final = self.dumps[-1] if (want_store and self.dumps) else (dump_store(srv.folder, self.etags) if want_store else None)
+            # optional read-only raw requests on the final store (C03: every observer the handler model does not cover)
+            self.after_out = self.after(srv) if getattr(self, "after", None) else None
             self.verify_ok = None
             if want_store:
                 try:
